@@ -50,6 +50,7 @@ type vpDep struct {
 	name     string
 	group    string
 	optional bool
+	extraTag bool // a group field that also carries a name tag (parameter objects only): the group alone decides
 }
 
 type vpReg struct {
@@ -442,6 +443,9 @@ func (w *vpWorld) makeConstructor(r *vpReg) any {
 			var tags []string
 			if d.name != "" {
 				tags = append(tags, `name:"`+d.name+`"`)
+			}
+			if d.group != "" && d.extraTag {
+				tags = append(tags, `name:"main"`)
 			}
 			if d.group != "" {
 				tags = append(tags, `group:"`+d.group+`"`)
@@ -1052,13 +1056,13 @@ func (r *vpRun) finishRegister(w *vpWorld) {
 	}
 	for k, d := range w.coll.services {
 		if !inAll[d] {
-			w.fail("C17,C08", "the service map still holds %v (key %v), which is not among the descriptors Build iterates", k.Type, k.Key)
+			w.fail("C17,C08,C05", "the service map still holds %v (key %v), which is not among the descriptors Build iterates (its dependencies are in no graph)", k.Type, k.Key)
 		}
 	}
 	for k, ms := range w.coll.groups {
 		for _, d := range ms {
 			if !inAll[d] {
-				w.fail("C17,C08", "group %q of %v still holds a member that is not among the descriptors Build iterates", k.Group, k.Type)
+				w.fail("C17,C08,C05", "group %q of %v still holds a member that is not among the descriptors Build iterates (its dependencies are in no graph)", k.Group, k.Type)
 			}
 		}
 	}
@@ -2139,6 +2143,9 @@ func (w *vpWorld) generate(o vpGenOpts) {
 			if rng.Intn(5) == 0 { // (an optional group field tolerates nothing a plain group field does not: groups are never absent)
 				d.optional = true
 			}
+			if d.group != "" && rng.Intn(4) == 0 {
+				d.extraTag = true
+			}
 			seen[key] = true
 			reg.deps = append(reg.deps, d)
 		}
@@ -2290,7 +2297,12 @@ func (w *vpWorld) generate(o vpGenOpts) {
 				first = vpOut{typ: taken.typ, slot: slotOf(taken.typ), name: "rej" + strconv.Itoa(len(w.regs))}
 			}
 			second := vpOut{typ: taken.typ, slot: slotOf(taken.typ)} // already registered: the whole call is rejected
-			w.regs = append(w.regs, &vpReg{life: Lifetime(rng.Intn(3)), form: "ro", outs: []vpOut{first, second}, doomed: true})
+			outs := []vpOut{first, second}
+			if first.group != "" && rng.Intn(2) == 0 {
+				// two members of one group before the offending field: the undo has to take both out again
+				outs = []vpOut{first, first, second}
+			}
+			w.regs = append(w.regs, &vpReg{life: Lifetime(rng.Intn(3)), form: "ro", outs: outs, doomed: true})
 		}
 	}
 	w.materialize()
@@ -3257,6 +3269,14 @@ func (r *vpRun) lateOutputs(rng *rand.Rand) {
 // constructors. Either Build reports the cancellation - then everything it created has been closed exactly once -
 // or it returns a provider - then that provider is complete: every singleton constructor has run exactly once and
 // every singleton identity (plain, named, group member) is resolvable. Monitors only.
+type vlT struct{}
+type vlAllIn struct {
+	In
+	A  *vlA
+	B  *vlB   `name:"b"`
+	Cs []*vlC `group:"cs"`
+}
+
 func (r *vpRun) cancelledBuild(rng *rand.Rand) {
 	w := r.newWorld(rng)
 	c := w.coll
@@ -3273,18 +3293,59 @@ func (r *vpRun) cancelledBuild(rng *rand.Rand) {
 			cancel()
 		}
 	}
-	regs := []func() error{
-		func() error { return c.AddSingleton(func() *vlA { tick("A", 0); a := &vlA{}; as = append(as, a); return a }) },
-		func() error {
-			return c.AddSingleton(func(_ *vlA) *vlB { tick("B", 1); b := &vlB{}; bs = append(bs, b); return b }, Name("b"))
-		},
-		func() error {
-			return c.AddSingleton(func() *vlC { tick("C1", 2); x := &vlC{}; cs = append(cs, x); return x }, Group("cs"))
-		},
-		func() error {
-			return c.AddSingleton(func(_ *vlA) *vlC { tick("C2", 3); x := &vlC{}; cs = append(cs, x); return x }, Group("cs"))
-		},
+	withT := rng.Intn(2) == 0
+	mk := func(c Collection, tick func(string, int), keep bool) []func() error {
+		return []func() error{
+			func() error {
+				return c.AddSingleton(func() *vlA {
+					tick("A", 0)
+					a := &vlA{}
+					if keep {
+						as = append(as, a)
+					}
+					return a
+				})
+			},
+			func() error {
+				return c.AddSingleton(func(_ *vlA) *vlB {
+					tick("B", 1)
+					b := &vlB{}
+					if keep {
+						bs = append(bs, b)
+					}
+					return b
+				}, Name("b"))
+			},
+			func() error {
+				return c.AddSingleton(func() *vlC {
+					tick("C1", 2)
+					x := &vlC{}
+					if keep {
+						cs = append(cs, x)
+					}
+					return x
+				}, Group("cs"))
+			},
+			func() error {
+				return c.AddSingleton(func(_ *vlA) *vlC {
+					tick("C2", 3)
+					x := &vlC{}
+					if keep {
+						cs = append(cs, x)
+					}
+					return x
+				}, Group("cs"))
+			},
+			// a transient that depends on every singleton: its graph node comes after all of them in every valid order
+			func() error {
+				if !withT {
+					return nil
+				}
+				return c.AddTransient(func(in vlAllIn) *vlT { return &vlT{} })
+			},
+		}
 	}
+	regs := mk(c, tick, true)
 	rng.Shuffle(len(regs), func(i, j int) { regs[i], regs[j] = regs[j], regs[i] })
 	for _, f := range regs {
 		if e := f(); e != nil {
@@ -3300,6 +3361,38 @@ func (r *vpRun) cancelledBuild(rng *rand.Rand) {
 		return
 	}
 	r.stats["cancelled_build"]++
+	// C06: the same registration set with the same constructor behaviour, registered in another order and built again
+	// (fresh map seeds), has the same outcome
+	for rep := 0; rep < 5 && withT; rep++ {
+		c2 := NewCollection()
+		ctx2, cancel2 := context.WithCancel(context.Background())
+		regs2 := mk(c2, func(_ string, k int) {
+			if k == cancelAt {
+				cancel2()
+			}
+		}, false)
+		rng.Shuffle(len(regs2), func(i, j int) { regs2[i], regs2[j] = regs2[j], regs2[i] })
+		bad := false
+		for _, f := range regs2 {
+			if f() != nil {
+				bad = true
+			}
+		}
+		var p2 Provider
+		var err2 error
+		if bad || guard(w, "BuildWithContext", func() { p2, err2 = c2.BuildWithContext(ctx2) }) {
+			cancel2()
+			break
+		}
+		if p2 != nil {
+			p2.Close()
+		}
+		cancel2()
+		if (err2 == nil) != (err == nil) {
+			w.fail("C06,C15", "cancelled-build scenario: the context is cancelled inside the constructor of singleton #%d; one Build of this registration set returned err=%v, another (other registration order) err=%v", cancelAt, err, err2)
+			break
+		}
+	}
 	closedOnce := func(when string) {
 		for _, a := range as {
 			if n := a.closes.Load(); n != 1 {
